@@ -7,9 +7,9 @@ wt=/tmp/wt_verify_$$
 git -C /repo worktree add --detach $wt HEAD -q || exit 2
 cd $wt
 cp $md/demo_test.go $pkg/zz_demo_test.go
-go test -vet=off -count=1 -run 'Demo|demo|TestMut|TestC11|TestC19|Mut|C03' ./$pkg/ > /tmp/vm_clean.txt 2>&1; clean=$?
+go test -vet=off -count=1 -run 'Demo|demo|TestMut|TestC11|TestC19|Mut|C03|C06|C14|C16|C05|C09|C08' ./$pkg/ > /tmp/vm_clean.txt 2>&1; clean=$?
 git apply $md/patch.diff || { echo "APPLY-FAILED"; cd /; git -C /repo worktree remove --force $wt; exit 2; }
-go test -vet=off -count=1 -run 'Demo|demo|TestMut|TestC11|TestC19|Mut|C03' ./$pkg/ > /tmp/vm_mut.txt 2>&1; mut=$?
+go test -vet=off -count=1 -run 'Demo|demo|TestMut|TestC11|TestC19|Mut|C03|C06|C14|C16|C05|C09|C08' ./$pkg/ > /tmp/vm_mut.txt 2>&1; mut=$?
 rm $pkg/zz_demo_test.go
 go build $(go list ./... | grep -v maddy-pam-helper) > /tmp/vm_build.txt 2>&1; build=$?
 go test -vet=off -count=1 $(go list ./... | grep -v maddy-pam-helper) > /tmp/vm_suite.txt 2>&1; suite=$?
